@@ -218,3 +218,37 @@ func runGS1() {
 			report(l, cls, w, cases[i])
 		})
 }
+
+// runTwinSequences: requests of the SAME shape (family, version, level, mask, length) with
+// different contents, one after the other on ONE goroutine: state keyed by the shape of a request
+// (a converted byte string handed from mode selection to bit packing, a memo keyed by length)
+// survives from one content to the next only between such twins. Every matrix is compared with the
+// reference as usual.
+func runTwinSequences() {
+	var seqs [][]mxCase
+	for fam := famNumeric; fam < famRaw; fam++ {
+		for _, vl := range [][2]int{{1, 0}, {7, 1}, {27, 2}, {40, 3}} {
+			lv := levels[vl[1]]
+			n := capOf(fam, vl[0], lv.ref) / 2
+			if n < 1 {
+				n = 1
+			}
+			var seq []mxCase
+			for _, pat := range []int{0, 1, 0, 1003, 1} {
+				seq = append(seq, mxCase{Kind: "encode", V: vl[0], Level: lv.name, Mask: (vl[0] + fam) % 8, Family: famNames[fam], Len: n, Pat: pat})
+			}
+			seqs = append(seqs, seq)
+		}
+	}
+	chk.Range(fmt.Sprintf("twin sequences on one goroutine: %d (family, version, level) shapes x five contents of the same length in turn (two fixed patterns alternating, one sweep pattern): every matrix equals the reference", len(seqs)), 1,
+		func(i int) string { return "twin sequences" },
+		func(l *mc.Local, _ int) {
+			for _, seq := range seqs {
+				for _, c := range seq {
+					cls, w := runMatrixCase(l, c)
+					report(l, cls, w, c)
+					l.Count("twin_sequence_encodes", 1)
+				}
+			}
+		})
+}
